@@ -508,7 +508,8 @@ class C20(Prop):
 
     def finding_key(self, c, msg):
         """the canonical minimal witness of the violated clause (so that every manifestation of one defect has one key)"""
-        return json.dumps(self._minimise(c, self._tag(msg)), sort_keys=True)
+        tag = self._tag(msg)
+        return json.dumps({'clause': tag, 'witness': self._minimise(c, tag)}, sort_keys=True)
 
     def shrink(self, c, fails):
         msg = self.oracle(c, self.impl(c))
